@@ -74,6 +74,11 @@ func (zp *ZoneParser) generate(l lex) (RR, bool) {
 		s += l.token
 	}
 
+	// The line may have ended because reading it failed.
+	if zp.c.Err() != nil {
+		return nil, false
+	}
+
 	r := &generateReader{
 		s: s,
 
